@@ -8,7 +8,7 @@ CONSTANTS
   SpellNames = {"s1", "s3"}
   EmitTrees = FALSE
   Alpha = "P"
-  Contexts = {"plain", "not", "andnot", "in1", "mid", "kw"}
+  Contexts = {"plain", "in1", "kw", "sub"}
   MaxLen = 3
   TailLen = 0
   DeepReps = {}
